@@ -31,23 +31,24 @@ TraceMaxBars == Tr[1].maxbars
 TraceChunk == Tr[1].chunk
 
 VARIABLES l,        \* next record
-          cx,       \* the Reset record of the running execution (kind, per-operation deliveries)
+          cxi,      \* index of the Reset record of the running execution (kind, per-operation deliveries)
           stopping  \* between StopCall and StopRet
-tvars == <<vars, l, cx, stopping>>
+tvars == <<vars, l, cxi, stopping>>
+cx == Tr[cxi]
 
 Rcd == Tr[l]
 Ev(e) == l <= Len(Tr) /\ Rcd.e = e
-Consume == l' = l + 1 /\ UNCHANGED <<cx, stopping>>
-Silent == l <= Len(Tr) /\ UNCHANGED <<l, cx, stopping>>
+Consume == l' = l + 1 /\ UNCHANGED <<cxi, stopping>>
+Silent == l <= Len(Tr) /\ UNCHANGED <<l, cxi, stopping>>
 
-TInit == Init /\ l = 2 /\ cx = Tr[2] /\ stopping = FALSE /\ TLCSet(1, 0)
+TInit == Init /\ l = 2 /\ cxi = 2 /\ stopping = FALSE /\ TLCSet(1, 0)
 
 ErrClass(e) == IF e = 0 THEN 0 ELSE IF e = ECANCELED THEN 2 ELSE 1
 
 (* ------------------------------ chunk look-ahead ------------------------------ *)
 PendingInv(q) == Len(q) + Cardinality({i \in 1 .. Len(q) : Len(q[i].inv) = 2})
 \* deliveries of operation o posted so far (run or waiting on op_q)
-Posted(o) == Len(hist[o]) + PendingInv(opq[o])
+Posted(o) == ninv[o] + PendingInv(opq[o])
 TraceK(o, m) ==
   LET hs == cx.ops[o]
       i == Posted(o) + 1 IN
@@ -61,7 +62,7 @@ TraceK(o, m) ==
 KinOf(r) == IF r.kind = "filein" THEN [wpos |-> r.insize, rpos |-> 0, closed |-> TRUE]
             ELSE [wpos |-> 0, rpos |-> 0, closed |-> FALSE]
 TReset ==
-  /\ Ev("Reset") /\ l' = l + 1 /\ cx' = Rcd /\ stopping' = FALSE
+  /\ Ev("Reset") /\ l' = l + 1 /\ cxi' = l /\ stopping' = FALSE
   /\ l = 2 \/ (Quiescent /\ clq = "ran" /\ ~stopping)
   /\ cstate' = "run" /\ nops' = 0 /\ nbars' = 0 /\ nsetl' = 0 /\ nseth' = 0
   /\ closeCall' = FALSE /\ stopCall' = FALSE /\ released' = FALSE /\ wsub' = 0
@@ -76,6 +77,7 @@ TReset ==
   /\ kin' = KinOf(Rcd)
   /\ kout' = [content |-> <<>>, pread |-> 0, hup |-> FALSE]
   /\ hist' = [o \in Ops |-> <<>>] /\ dcat' = [o \in Ops |-> <<>>]
+  /\ ninv' = [o \in Ops |-> 0] /\ last' = [o \in Ops |-> NoInv] /\ doneCnt' = [o \in Ops |-> 0]
   /\ consumed' = [o \in Ops |-> <<>>] /\ written' = [o \in Ops |-> <<>>]
   /\ sched' = <<>>
 
@@ -90,10 +92,10 @@ TWrite == Ev("Write") /\ Consume /\ Rcd.off = wsub /\ CSubmit(Rcd.o, "W", Rcd.le
 TBarrier == Ev("Barrier") /\ Consume /\ CBarrier(Rcd.b)
 TClose == Ev("Close") /\ Consume /\ CClose
 TRelease == Ev("Release") /\ Consume /\ CRelease
-TStopCall == /\ Ev("StopCall") /\ l' = l + 1 /\ stopping' = TRUE /\ UNCHANGED <<cx, vars>>
+TStopCall == /\ Ev("StopCall") /\ l' = l + 1 /\ stopping' = TRUE /\ UNCHANGED <<cxi, vars>>
 \* _dispatch_io_stop sets DIO_STOPPED and enqueues its block somewhere inside the call
 TStopEffect == /\ stopping /\ ~stopCall /\ Silent /\ CStop /\ UNCHANGED cstate
-TStopRet == /\ Ev("StopRet") /\ stopCall /\ l' = l + 1 /\ stopping' = FALSE /\ UNCHANGED <<cx, vars>>
+TStopRet == /\ Ev("StopRet") /\ stopCall /\ l' = l + 1 /\ stopping' = FALSE /\ UNCHANGED <<cxi, vars>>
 
 (* ------------------------------ library records ------------------------------ *)
 TH ==
